@@ -229,30 +229,37 @@ Section Generic.
 
   (* ---- flatten_glyph ------------------------------------------------------- *)
   (* A component that has components is replaced, in place, by those components
-     under the composed transform; one without is kept.  (Contours of a
-     component that has components are not looked at: the caller has removed
-     mixed glyphs before.)  `context.get_glyph` panics on a missing glyph. *)
-  Fixpoint flat (fuel : nat) (F : font) (frontier simple : list (name * T)) : option (list (name * T)) :=
+     under the composed transform; one without is kept.  Contours of a
+     component that has components are not looked at (the caller has removed
+     mixed glyphs before): the last result records whether such contours were
+     passed over.  `context.get_glyph` panics on a missing glyph. *)
+  Fixpoint flat (fuel : nat) (F : font) (frontier simple : list (name * T)) (lost : bool)
+    : option (list (name * T) * bool) :=
     match fuel with
     | O => None
     | S f =>
         match frontier with
-        | [] => Some simple
+        | [] => Some (simple, lost)
         | (c, t) :: rest =>
             match F c with
             | None => None
             | Some h =>
                 match g_comps h with
-                | [] => flat f F rest (simple ++ [(c, t)])
+                | [] => flat f F rest (simple ++ [(c, t)]) lost
                 | hc => flat f F (map (fun ct => (fst ct, tmul t (snd ct))) hc ++ rest) simple
+                             (lost || match g_contours h with [] => false | _ => true end)
                 end
             end
         end
     end.
-  Definition flatten_glyph (fuel : nat) (F : font) (g : glyph) : option glyph :=
+  Definition flatten_glyph (fuel : nat) (F : font) (g : glyph) : option (glyph * bool) :=
     match g_comps g with
-    | [] => Some g
-    | cs => option_map (fun s => mkGlyph (g_contours g) s (g_adv g) (g_export g) (g_ovf g)) (flat fuel F cs [])
+    | [] => Some (g, false)
+    | cs =>
+        match flat fuel F cs [] false with
+        | Some (s, lost) => Some (mkGlyph (g_contours g) s (g_adv g) (g_export g) (g_ovf g), lost)
+        | None => None
+        end
     end.
 
   (* ---- resolve_inconsistencies ------------------------------------------- *)
@@ -274,18 +281,21 @@ Section Generic.
         end
     end.
 
-  Record st := mkSt { st_font : font; st_order : list name; st_dup : bool }.
+  (* st_lossy: some contour was passed over on the way (the visited test of
+     convert_components_to_contours fired, or flatten_glyph walked through a
+     component that has both contours and components) *)
+  Record st := mkSt { st_font : font; st_order : list name; st_lossy : bool }.
 
   Definition apply_convert (fuel : nat) (s : st) (n : name) (g : glyph) : option st :=
     match decompose fuel (st_font s) g with
-    | Some (g', d) => Some (mkSt (upd (st_font s) n g') (st_order s) (st_dup s || d))
+    | Some (g', d) => Some (mkSt (upd (st_font s) n g') (st_order s) (st_lossy s || d))
     | None => None
     end.
   Definition apply_move (fuel : nat) (s : st) (n : name) (g : glyph) : option st :=
     match name_for_derivative fuel n (st_order s) 0 with
     | Some nf =>
         Some (mkSt (upd (upd (st_font s) nf (split_simple g)) n (split_composite g nf))
-                   (st_order s ++ [nf]) (st_dup s))
+                   (st_order s ++ [nf]) (st_lossy s))
     | None => None
     end.
 
@@ -354,7 +364,7 @@ Section Generic.
     match st_font s n with
     | Some g =>
         match flatten_glyph fuel (st_font s) g with
-        | Some g' => Some (mkSt (upd (st_font s) n g') (st_order s) (st_dup s))
+        | Some (g', lost) => Some (mkSt (upd (st_font s) n g') (st_order s) (st_lossy s || lost))
         | None => None
         end
     | None => None
@@ -395,7 +405,7 @@ Arguments g_ovf {P T}.
 Arguments mkSt {P T}.
 Arguments st_font {P T}.
 Arguments st_order {P T}.
-Arguments st_dup {P T}.
+Arguments st_lossy {P T}.
 
 (* ---- the instance: kurbo::Affine over exact rationals ------------------------ *)
 (* f64 is modelled by Qc (canonical rationals, so equal values are equal terms).
@@ -436,6 +446,7 @@ Definition q_resolve := resolve pt aff aff_act.
 Definition q_process := process pt aff aff_mul aff_id aff_act aff_neg aff_ovf aff_nonid vary aff_eqb.
 Definition q_decompose := decompose pt aff aff_mul aff_id aff_act aff_neg aff_ovf aff_eqb.
 Definition q_flatten := flatten_glyph pt aff aff_mul.
+Definition q_gsem := gsem pt aff aff_act.
 Definition q_inline := inline_glyph pt aff aff_mul aff_act aff_neg aff_ovf.
 
 (* a font given as an association list (first entry wins) *)
